@@ -6,7 +6,7 @@
    (Gen/LoadGen.v: "the unwrap at this site is still there").  The theorems hold
    for EVERY table, so they stay valid when sites are repaired; the instance
    for the current table says which way the property goes today. *)
-From Ink.Json Require Import StdLoad StdLoadProofs StdLoadDepth.
+From Ink.Json Require Import StdLoad StdLoadProofs StdLoadDepth StdLoadNames.
 From Ink.Gen Require Import LoadGen.
 
 (* (1) totality: with every story-reachable site repaired, no document panics *)
@@ -96,6 +96,14 @@ Theorem load_depth_bound_tight :
   /\ jtoken_fuel lsite_panics 7 (nest 5) None = jtoken_to_obj (nest 5) None.
 Proof. exact depth_bound_tight. Qed.
 Print Assumptions load_depth_bound_tight.
+
+(* T-gen tie: the loader's control-command / native-function name tables coincide, on every
+   string, with the independently generated tables of the arithmetic development *)
+Theorem loader_name_tables_agree :
+  (forall s, StdLoad.cmd_of_name s = Ink.Gen.CmdGen.cmd_of_name s)
+  /\ (forall s, StdLoad.nop_of_name s = Ink.Gen.NativeGen.nop_of_name s).
+Proof. exact (conj cmd_of_name_agrees nop_of_name_agrees). Qed.
+Print Assumptions loader_name_tables_agree.
 
 (* non-vacuity *)
 Theorem a_story_loads : is_ok (load_story tiny_story) = true /\ is_ok (load_story_repaired tiny_story) = true.
